@@ -353,6 +353,11 @@ def partial_state_loop(s, amp):
     if s['k'] != 'for' or not SX.is_node(s.get('c')):
         return None
     if (amp + '.size()') not in SX.show(s['c']):
+        # a counted loop from 0 that subscripts the state vector by its counter but stops at something else than the vector's size
+        c_ = _counted(s)
+        if c_ and any(n.get('k') == 'index' and SX.show(n.get('base')) == amp and any(y.get('k') == 'ref' and y.get('id') == c_[0]['id'] for y in SX.walk(n.get('i')))
+                      for n in SX.walk(s['body'], into_lambdas=False)):
+            return 'stops at %s instead of the end of the state vector' % SX.show(c_[1])[:30]
         return None
     if full_state_loop(s, amp) is not None:
         return None
